@@ -1,7 +1,7 @@
 HOOKS = dict(
     guard="CONCEPTCORE_VERIF",
     enable="tools/build_impl.py compiles /repo/ccl's seven unity TUs with -DCONCEPTCORE_VERIF -fsanitize=address,undefined into /verif/.cache/impl/<tree-hash>/",
-    baseline_off_cmd="cmake --build /repo/_build && ctest --test-dir /repo/_build -j8 --timeout 900",
+    baseline_off_cmd="cmake --build /repo/_build -- -k 0 ; ctest --test-dir /repo/_build -j8 --timeout 900",
     source_commits=[],
     add_only=True,
 )
